@@ -1039,7 +1039,10 @@ func (p *Prog) feasibleAt(at ssa.Instruction) func(blk *ssa.BasicBlock) []int {
 			}
 		}
 	}
-	if len(facts) == 0 {
+	// nil tests of any value (not only joins) that hold at `at`: an edge into a join that is only taken on the opposite
+	// outcome of a test of the same value cannot lie on a path to `at` (the value is an SSA value: it does not change)
+	atNil := p.nilFactsOf(from)
+	if len(facts) == 0 && len(atNil) == 0 {
 		return nil
 	}
 	return func(blk *ssa.BasicBlock) []int {
@@ -1052,6 +1055,24 @@ func (p *Prog) feasibleAt(at ssa.Instruction) func(blk *ssa.BasicBlock) []int {
 		constrained := false
 		for k := range blk.Preds {
 			ok := true
+			if len(atNil) > 0 && blk.Dominates(from) {
+				pb := blk.Preds[k]
+				ef := p.nilFactsOf(pb)
+				if ifi, isIf := pb.Instrs[len(pb.Instrs)-1].(*ssa.If); isIf && pb.Succs[0] != pb.Succs[1] {
+					if v, nonNilWhenTrue, isT := nilTestOfCond(ifi.Cond); isT {
+						if ef == nil {
+							ef = map[ssa.Value]bool{}
+						}
+						ef[v] = nonNilWhenTrue == (pb.Succs[0] == blk)
+					}
+				}
+				for v, nn := range ef {
+					if want, has := atNil[v]; has && want != nn {
+						ok = false
+						constrained = true
+					}
+				}
+			}
 			for _, f := range facts {
 				if f.ph.Block() != blk {
 					continue
@@ -1106,6 +1127,57 @@ func (p *Prog) feasibleAt(at ssa.Instruction) func(blk *ssa.BasicBlock) []int {
 		}
 		return ks
 	}
+}
+
+// nilTestOfCond: cond is (a negation of) v == nil / v != nil; nonNilWhenTrue tells what a true outcome means.
+func nilTestOfCond(cond ssa.Value) (v ssa.Value, nonNilWhenTrue bool, ok bool) {
+	neg := false
+	for {
+		if u, isU := cond.(*ssa.UnOp); isU && u.Op == token.NOT {
+			cond, neg = u.X, !neg
+			continue
+		}
+		break
+	}
+	bo, isB := cond.(*ssa.BinOp)
+	if !isB || (bo.Op != token.EQL && bo.Op != token.NEQ) {
+		return nil, false, false
+	}
+	if cn, isC := bo.Y.(*ssa.Const); isC && cn.IsNil() {
+		v = bo.X
+	} else if cn, isC := bo.X.(*ssa.Const); isC && cn.IsNil() {
+		v = bo.Y
+	}
+	if v == nil {
+		return nil, false, false
+	}
+	return v, (bo.Op == token.NEQ) != neg, true
+}
+
+// nilFactsOf: the nil tests decided on every path to block b (taken from the branches that dominate it).
+func (p *Prog) nilFactsOf(b *ssa.BasicBlock) map[ssa.Value]bool {
+	var out map[ssa.Value]bool
+	for d := b; d != nil && d.Idom() != nil; d = d.Idom() {
+		a := d.Idom()
+		ifi, isIf := a.Instrs[len(a.Instrs)-1].(*ssa.If)
+		if !isIf {
+			continue
+		}
+		d0 := a.Succs[0].Dominates(b) && len(a.Succs[0].Preds) == 1
+		d1 := a.Succs[1].Dominates(b) && len(a.Succs[1].Preds) == 1
+		if d0 == d1 {
+			continue
+		}
+		if v, nonNilWhenTrue, ok := nilTestOfCond(ifi.Cond); ok {
+			if out == nil {
+				out = map[ssa.Value]bool{}
+			}
+			if _, has := out[v]; !has {
+				out[v] = nonNilWhenTrue == d0
+			}
+		}
+	}
+	return out
 }
 
 // nilness: whether a value is known to be non-nil (true) or nil (false) by its construction: the nil constant;
